@@ -2,12 +2,14 @@
 """Registry: what decides each property."""
 
 import stages
+import stage_c16
+import stage_wire
 
 TRACE_FAMILIES = ["send", "recv", "lifecycle", "connect", "caps", "keepalive", "crash"]
 
 # scenarios per family
-SIZES = dict(quick=dict(crash=1, send=1600, recv=1200, lifecycle=1200, connect=900, caps=900, keepalive=700),
-             thorough=dict(crash=100000, send=40000, recv=25000, lifecycle=25000, connect=15000, caps=12000, keepalive=12000))
+SIZES = dict(quick=dict(misbehave=500, crash=1, send=1600, recv=1200, lifecycle=1200, connect=900, caps=900, keepalive=700),
+             thorough=dict(misbehave=8000, crash=100000, send=40000, recv=25000, lifecycle=25000, connect=15000, caps=12000, keepalive=12000))
 
 TRACE_ASSUME = [
     "the simulated broker/network of harness/ (conformant MQTT 5 broker, transport faults only) stands for the environment",
@@ -43,7 +45,7 @@ PROPS = {
                 relevant=lambda e: e["e"] == "c_pkt" and e.get("type") == "PINGREQ" or (e["e"] == "c_read_end" and e.get("ec") == "timed_out")),
     "C13": dict(title="session_expired exactly once", prefixes=["C13_"], families=TRACE_FAMILIES,
                 relevant=lambda e: e["e"] == "done" and e.get("ec") == "session_expired"),
-    "C14": dict(stages=[stages.l1_client], title="SUBSCRIBE/UNSUBSCRIBE verdicts", prefixes=["C14_"], families=TRACE_FAMILIES,
+    "C14": dict(stages=[stages.l1_client], title="SUBSCRIBE/UNSUBSCRIBE verdicts", prefixes=["C14_"], families=TRACE_FAMILIES + ["misbehave"],
                 relevant=lambda e: e["e"] == "done" and e.get("kind") in ("sub", "unsub") and e.get("ec") == "ok"),
     "C15": dict(title="announced capabilities", prefixes=["C15_"], families=TRACE_FAMILIES,
                 relevant=lambda e: e["e"] == "done" and e.get("ec") in ("packet_too_large", "qos_not_supported", "retain_not_available",
@@ -53,4 +55,18 @@ PROPS = {
                 level="model_checking",
                 assume=["spec/ReasonCodes.tla is a faithful transcription of the MQTT 5 reason-code tables",
                         "AddressSanitizer red zones around the (internal-linkage) lookup tables reveal accesses outside them"]),
+    "C16": dict(stages=[stage_c16.stage], title="request validation = MQTT 5 well-formedness", prefixes=["C16_"], families=[], relevant=lambda e: False,
+                assume=["spec/Utf8Topic.tla is a faithful transcription of Unicode ch.3 (UTF-8) and MQTT 5 sections 1.5.4, 4.7, 4.8.2",
+                        "the enumeration is exhaustive only over the stated alphabet / all code points, not over all byte strings"]),
+    "C17": dict(stages=[stage_wire.stage], title="every emitted packet is well-formed and says what was asked", prefixes=["C17_"], families=TRACE_FAMILIES,
+                relevant=lambda e: e["e"] == "c_pkt",
+                assume=["spec/Wire.tla is a faithful transcription of the MQTT 5 wire format; vectors are a bounded, boundary-oriented enumeration",
+                        "wire monitor: harness/refcodec.hpp strictly decodes every packet the client writes in every scenario"]),
+    "C18": dict(stages=[stage_wire.stage], title="well-formed broker packets decode exactly", prefixes=["C18_"], families=[], relevant=lambda e: False,
+                assume=["spec/Wire.tla is a faithful transcription of the MQTT 5 wire format; vectors are a bounded, boundary-oriented enumeration"]),
+    "C19": dict(stages=[stages.c19_stage], title="hostile broker bytes", prefixes=["C19_"], families=[], relevant=lambda e: False,
+                level="exploration",
+                assume=["memory-safety is observed by AddressSanitizer/UBSan on the enumerated hostile inputs only (no proof, no coverage-guided fuzzing)",
+                        "structure only: ill-formed UTF-8 inside an otherwise well-formed broker packet is not counted as malformed (see DESIGN 0.5)",
+                        "chunking independence is judged by comparing outcome signatures of the same byte stream cut in 3 ways (python), the other clauses by TLC on the traces"]),
 }
